@@ -42,59 +42,64 @@ def notes_in_file_order(run: Run, model: PyModel) -> None:
 
     P = "zorg.domain.models._page"
     fi = model.func(f"{P}.Page.notes")
-    st = State()
-    counter = [0]
+    n_eval = 0
+    # the part of the page in front of its first H1 (`h0`): loose notes and an early H2 / only an early H2 (no loose block) / only loose notes / nothing at all
+    for label, loose, early in (("loose notes and an early H2 in front of the first H1", True, True), ("an H2 section as the very first thing of the page (no loose block)", False, True),
+                                ("loose notes only in front of the first H1", True, False), ("nothing in front of the first H1", False, False)):
+        st = State()
+        counter = [0]
 
-    def L(*xs):
-        return st.alloc(HObj("list", items=list(xs)))
+        def L(*xs):
+            return st.alloc(HObj("list", items=list(xs)))
 
-    def blk(k):
-        ns = []
-        for _ in range(k):
-            counter[0] += 1
-            ns.append(f"n{counter[0]:02d}")
-        return st.alloc(HObj("obj", cls=f"{P}.Block", fields=dict(section=None, notes=L(*ns))))
+        def blk(k):
+            ns = []
+            for _ in range(k):
+                counter[0] += 1
+                ns.append(f"n{counter[0]:02d}")
+            return st.alloc(HObj("obj", cls=f"{P}.Block", fields=dict(section=None, notes=L(*ns))))
 
-    def sec(level, title, blocks, subs=()):
-        fields = dict(title=title, blocks=L(*blocks))
-        if level < 4:
-            fields[f"h{level + 1}s"] = L(*subs)
-        return st.alloc(HObj("obj", cls=f"{P}.H{level}", fields=fields))
+        def sec(level, title, blocks, subs=()):
+            fields = dict(title=title, blocks=L(*blocks))
+            if level < 4:
+                fields[f"h{level + 1}s"] = L(*subs)
+            return st.alloc(HObj("obj", cls=f"{P}.H{level}", fields=fields))
 
-    # the construction order below IS the file order (notes are numbered as they are created)
-    b0 = blk(1)
-    h0_h2 = (lambda b: sec(2, "early", [b]))(blk(1))
-    h0 = sec(1, "", [b0], [h0_h2])
-    a_blocks = [blk(2), blk(1)]
-    a2_b = blk(1)
-    a3_b = blk(1)
-    a4_b = blk(2)
-    a3 = sec(3, "a3", [a3_b], [sec(4, "a4", [a4_b])])
-    a3b = (lambda b: sec(3, "a3b", [b]))(blk(1))
-    a2 = sec(2, "a2", [a2_b], [a3, a3b])
-    a2b_b = blk(1)
-    a2b_3 = (lambda b: sec(3, "a2b3", [b]))(blk(1))
-    a2b = sec(2, "a2b", [a2b_b], [a2b_3])
-    a2c = (lambda b: sec(2, "a2c", [b]))(blk(1))
-    A = sec(1, "A", a_blocks, [a2, a2b, a2c])
-    B = (lambda b: sec(1, "B", [b]))(blk(1))
-    page = st.alloc(HObj("obj", cls=f"{P}.Page", fields=dict(path=None, has_errors=False, events=L(), h0=h0, h1s=L(A, B))))
-    want = [f"n{i:02d}" for i in range(1, counter[0] + 1)]
-    I = Interp(model)
-    try:
-        res = I.run_function(f"{P}.Page.notes", [page], st=st)
-    except Exception as e:  # noqa: BLE001
-        run.undecided("C01.R4", "Page.notes", f"cannot interpret: {type(e).__name__}: {str(e)[:100]}")
-        return
-    run.floor("Page.notes evaluations", len(res), 1)
-    for v, s in res:
-        if isinstance(v, Raised) or s.imprecise or not isinstance(v, Ref) or s.obj(v).kind != "list" or s.obj(v).setlike:
-            run.undecided("C01.R4", "Page.notes", (f"raises {v.exc}" if isinstance(v, Raised) else "; ".join(s.imprecise[:2]) or f"returns {v!r}"))
+        # the construction order below IS the file order (notes are numbered as they are created)
+        b0 = [blk(1)] if loose else []
+        h0_subs = [(lambda b: sec(2, "early", [b], [(lambda b2: sec(3, "early3", [b2]))(blk(1))]))(blk(1))] if early else []
+        h0 = sec(1, "", b0, h0_subs) if (loose or early) else None
+        a_blocks = [blk(2), blk(1)]
+        a2_b = blk(1)
+        a3_b = blk(1)
+        a4_b = blk(2)
+        a3 = sec(3, "a3", [a3_b], [sec(4, "a4", [a4_b])])
+        a3b = (lambda b: sec(3, "a3b", [b]))(blk(1))
+        a2 = sec(2, "a2", [a2_b], [a3, a3b])
+        a2b_b = blk(1)
+        a2b_3 = (lambda b: sec(3, "a2b3", [b]))(blk(1))
+        a2b = sec(2, "a2b", [a2b_b], [a2b_3])
+        a2c = (lambda b: sec(2, "a2c", [b]))(blk(1))
+        A = sec(1, "A", a_blocks, [a2, a2b, a2c])
+        B = (lambda b: sec(1, "B", [b]))(blk(1))
+        page = st.alloc(HObj("obj", cls=f"{P}.Page", fields=dict(path=None, has_errors=False, events=L(), h0=h0, h1s=L(A, B))))
+        want = [f"n{i:02d}" for i in range(1, counter[0] + 1)]
+        I = Interp(model)
+        try:
+            res = I.run_function(f"{P}.Page.notes", [page], st=st)
+        except Exception as e:  # noqa: BLE001
+            run.undecided("C01.R4", "Page.notes", f"{label}: cannot interpret: {type(e).__name__}: {str(e)[:100]}")
             continue
-        got = list(s.obj(v).items)
-        run.check("C01.R4", "Page.notes lists every note once, in file order (sections depth first)", got == want, "Page.notes", f"order {got}",
-                  f"for a page with unevenly nested sections (an H2 with H3/H4 children followed by sibling H2s) Page.notes yields {got}, expected {want}: notes are not in the order of the file "
-                  "(or are lost / repeated)", file=fi.file, node=fi.node)
+        for v, s in res:
+            n_eval += 1
+            if isinstance(v, Raised) or s.imprecise or not isinstance(v, Ref) or s.obj(v).kind != "list" or s.obj(v).setlike:
+                run.undecided("C01.R4", "Page.notes", f"{label}: " + (f"raises {v.exc}" if isinstance(v, Raised) else "; ".join(s.imprecise[:2]) or f"returns {v!r}"))
+                continue
+            got = list(s.obj(v).items)
+            run.check("C01.R4", f"Page.notes lists every note once, in file order (sections depth first) [{label}]", got == want, "Page.notes", f"{label}: order {got}",
+                      f"for a page with {label} and unevenly nested sections (an H2 with H3/H4 children followed by sibling H2s) Page.notes yields {got}, expected {want}: notes are not in the "
+                      "order of the file (or are lost / repeated)", file=fi.file, node=fi.node)
+    run.floor("Page.notes evaluations", n_eval, 4)
 
 
 def check(run: Run) -> None:
